@@ -94,7 +94,7 @@ def run(ck):
             dec_lines.append("dec %s %s" % (tn, (h + sfx) or "-"))
             dec_idx.append((i, len(sfx) // 2))
     md = core.run_model("codec", dec_lines)
-    od = core.run_impl("codec", dec_lines)
+    od = [x.rsplit(" ~", 1)[0] for x in core.run_impl("codec", dec_lines)]
 
     st = ck.stream("encode", description="enc <type> <value>: exact bytes of the real Encoder (Vec target, exact-size and one-short fixed slice) vs model")
     for i, (fam, tn, v) in enumerate(enc):
